@@ -428,8 +428,8 @@ func (s *Schema) compile() error {
 		if err := s.load(); err != nil {
 			return err
 		}
+		loader.AddUnnamedTypes(s.inner) // before CompileAllOf: allOf inside a nested type names types of the nested tables
 		loader.CompileAllOf(s.inner)
-		loader.AddUnnamedTypes(s.inner)
 		checker.CheckRootSchema(s.inner)
 		return checker.CheckRecursion(s.file.Name(), s.inner)
 	})
